@@ -14,8 +14,15 @@ def setup():
   gin = core.import_gin()
   if not _S:
     def make(name):
-      def fn(action=None):
-        return action()
+      if name == 'lv1':
+        def fn(action=None):
+          return action()
+      elif name == 'lv2':
+        def fn(action=None, *, size):           # a keyword-only parameter without a default
+          return action()
+      else:
+        def fn(action, *rest, flag=False, **more):
+          return action()
       fn.__name__ = name
       fn.__qualname__ = name
       fn.__module__ = 'gvexc'
@@ -63,6 +70,19 @@ class WithKwOnlyNew(Exception):
 
   def __init__(self, *, code):
     super().__init__('code %s' % code)
+
+
+class WithValidatingNew(Exception):
+  """Its __new__ looks its argument up: re-running it with `args` fails with a KeyError, not a TypeError."""
+  KNOWN = {'net': 'network unreachable'}
+
+  def __new__(cls, key):
+    self = super().__new__(cls)
+    self.reason = cls.KNOWN[key]
+    return self
+
+  def __init__(self, key):
+    super().__init__(self.reason)
 
 
 class WithSlots(Exception):
@@ -139,7 +159,8 @@ def universe():
     else:
       fac = lambda c=cls: c('message', 42)
     out.append((name, fac))
-  out += [('user:WithInitArgs', lambda: WithInitArgs(4, 'detail')), ('user:WithNewArgs', lambda: WithNewArgs(9)), ('user:WithKwOnlyNew', lambda: WithKwOnlyNew(code=3)),
+  out += [('user:WithInitArgs', lambda: WithInitArgs(4, 'detail')), ('user:WithNewArgs', lambda: WithNewArgs(9)), ('user:WithKwOnlyNew', lambda: WithKwOnlyNew(code=3)), ('user:WithValidatingNew', lambda: WithValidatingNew('net')),
+          ('user:TypeErrorSub', lambda: type('ShapeError', (TypeError,), {})('bad shape', 3)),
           ('user:WithSlots', lambda: WithSlots('a', 'b')), ('user:WithStr', lambda: WithStr(6)),
           ('user:SubOSError', lambda: SubOSError(13, 'denied', 'f')), ('user:BaseOnly', lambda: BaseOnly('b')),
           ('user:Reloaded#1', lambda: _DUPS[0]('first')), ('user:Reloaded#2', lambda: _DUPS[1]('second')),
@@ -197,7 +218,8 @@ def observe(label, factory, depth, site, scopes):
     def run():
       # '' = no block at this level (config_scope(None) would *clear* the active scope)
       with (gin.config_scope(scopes[i]) if scopes[i] else contextlib.nullcontext()):
-        return lv[i](action=(level(i + 1) if i + 1 < depth else innermost))
+        nxt = level(i + 1) if i + 1 < depth else innermost
+        return [lambda: lv[0](action=nxt), lambda: lv[1](action=nxt, size=3), lambda: lv[2](nxt, 'extra', flag=True, other=1)][i]()
     return run
 
   frames = [('lv%d' % (i + 1), '/'.join(s for s in scopes[:i + 1] if s)) for i in range(depth)]
